@@ -9,12 +9,14 @@ import GcpVerif.Driver.ME
 import GcpVerif.Driver.Pool
 import GcpVerif.Driver.Checksum
 import GcpVerif.Driver.KeyPath
+import GcpVerif.Driver.Prober
 open GcpVerif.Driver
 
 structure DrvState where
   rep : Report := {}
   me : MEDrv.Sess := {}
   pool : PoolDrv.Sess := {}
+  pb : PbDrv.Sess := {}
   deriving Inhabited
 
 def handleLine (st : DrvState) (ln : Nat) (line : String) : DrvState :=
@@ -26,6 +28,9 @@ def handleLine (st : DrvState) (ln : Nat) (line : String) : DrvState :=
   | "pool" :: toks =>
     let (sess, rep) := PoolDrv.handle st.pool { st.rep with lines := st.rep.lines + 1 } ln toks obs
     { st with pool := sess, rep := rep }
+  | "pb" :: toks =>
+    let (sess, rep) := PbDrv.handle st.pb { st.rep with lines := st.rep.lines + 1 } ln toks obs
+    { st with pb := sess, rep := rep }
   | "kp" :: toks =>
     { st with rep := KpDrv.handle { st.rep with lines := st.rep.lines + 1 } ln toks obs }
   | "ck" :: toks =>
